@@ -843,3 +843,17 @@ Example C01_link_ex_spill :
   | _ => false
   end = true.
 Proof. exact l1_ex_spill. Qed.
+
+(* ---- Independence of the input buffers of different connections ------------------------------
+   C01's inbound clause is stated per connection; that two connections (possibly on two io-loop
+   threads) do not disturb each other's bytes rests on Buffer::readFd keeping no state outside its
+   own object: the 64 KiB spill area is an automatic variable and class Buffer has no shared mutable
+   state.  Both facts are regenerated from the current Buffer.h/.cc (lib/gen_C10.py); C10 proves the
+   product statement they justify (C10_buffers_independent) and executes the forced two-thread
+   spill case; C08 lists every static-storage variable.  Quoted here so that a change which makes
+   that area shared (seeded/C01_4) breaks an obligation of C01 as well. *)
+From Muduo Require Gen_C10 C10_GenLink.
+Theorem C01_input_buffers_share_no_state :
+  Gen_C10.readFd_extrabuf_is_automatic = true /\ Gen_C10.Buffer_shares_no_state = true.
+Proof. exact C10_GenLink.C10_buffers_share_no_state. Qed.
+Print Assumptions C01_input_buffers_share_no_state.
